@@ -152,9 +152,9 @@ Definition http_recv (c : cfg) (s : st) : opout :=
     if reof s then Ok ([], s, REof)
     else if c_cs c then
       (* StreamCodec.ReadNext on the varint-delimited body; at the end of the body ReadNext returns
-         (b, 0, io.EOF), which readMsg turns into rEOF = true and one more, empty, message *)
+         (b, 0, io.EOF): readMsg latches rEOF and RecvMsg returns io.EOF (fix da6e74d, property C06) *)
       match inq s with
-      | [] => http_deliver c [] true (set_reof true s)
+      | [] => Ok ([], set_reof true s, REof)
       | (p, v) :: rest => http_deliver c p v (set_inq rest s)
       end
     else
